@@ -9,6 +9,8 @@ structure State where
   ps : PState := {}
   /-- every reply handed to a writer in this case, oldest first -/
   replies : List Outcome := []
+  /-- the case talks to the list through the HTTP API; a bearer token is configured -/
+  apiToken : Bool := false
 
 def hexStr (s : String) : Option Str :=
   (hexBytes s).map (fun bs => bs.map (fun b => Char.ofNat b.toNat))
@@ -95,13 +97,22 @@ def step (st : State) (w : List String) : State × String :=
   | ["bl", kind, arg] =>
     if kind == "dirload" then
       -- readBlocklists over <dir> = main file (+ a staging file with this content)
-      let temp : Option (Option (List Str)) :=
-        if arg == "_" then some none else (hexStr arg).map (fun t => some (splitNL t))
-      match temp with
-      | some temp =>
-        let mem' := dirLoadMem st.ps.mem st.ps.main temp
+      let temps : Option (List (List Str)) :=
+        if arg == "_" then some [] else (hexStr arg).map (fun t => [splitNL t])
+      match temps with
+      | some temps =>
+        let mem' := dirLoadMem st.ps.mem st.ps.main temps
         let ps := { st.ps with mem := mem', dirty := st.ps.dirty || decide (mem' ≠ st.ps.mem) }
         ({ st with ps := ps }, s!"{memStr mem'} files=intact")
+      | none => (st, "bad-op")
+    else if kind == "viaapi" then ({ st with apiToken := arg != "-" }, "ok")
+    else if kind == "apiempty" then
+      let req : ApiReq := if arg == "setbatch" then .setBatch [] else .removeBatch []
+      let ps := apiStep true st.ps req
+      ({ st with ps := ps }, s!"status={apiStatus true st.ps.mem req}")
+    else if kind == "get" then
+      match hexStr arg with
+      | some k => (st, s!"{boolStr (getExact st.ps.mem k)} status={apiStatus true st.ps.mem (.getKey k)}")
       | none => (st, "bad-op")
     else if kind == "exists" then
       match hexStr arg with
@@ -129,6 +140,17 @@ def step (st : State) (w : List String) : State × String :=
           then run ps (persistSteps ps (ps.pending.length - 1) 0) else ps
         ({ st with ps := ps }, countStr op n)
       | none => (st, "bad-op")
+  | ["bl", "restart", mainArg, arg] =>
+    -- probe: the process is killed now (stranding this staging file) and New runs over the directory
+    let temps : Option (List (List Str)) :=
+      if arg == "_" then some [] else (hexStr arg).map (fun t => [splitNL t])
+    let main : Option (Option (List Str)) :=
+      if mainArg == "_" then some none else (hexStr mainArg).map (fun t => some (splitNL t))
+    match temps, main with
+    | some temps, some main =>
+      let r := restart st.ps.mem.w [] { st.ps with inflight := none, orphans := temps, main := main }
+      (st, s!"{memStr r.mem} files=intact")
+    | _, _ => (st, "bad-op")
   | ["bl", "persist", ver, fault] =>
     match ver.toNat?, faultCode fault with
     | some v, some fc =>
@@ -161,6 +183,23 @@ def step (st : State) (w : List String) : State × String :=
       ({ st with replies := log }, serveStr (serveDNS st.cfg st.ps.mem q t))
     | _, _ => (st, "bad-op")
   | ["bl", "held"] => (st, heldStr st.replies)
+  | ["bl", "apideny", kind, arg] =>
+    -- a request without / with a wrong bearer token: 401, nothing happens
+    let req : Option ApiReq :=
+      if kind == "set" then (hexStr arg).map .setKey
+      else if kind == "remove" then (hexStr arg).map .removeKey
+      else if kind == "exists" then (hexStr arg).map .existsKey
+      else if kind == "get" then (hexStr arg).map .getKey
+      else if kind == "setbatch" then (hexList arg).map .setBatch
+      else if kind == "removebatch" then (hexList arg).map .removeBatch
+      else none
+    match req with
+    | some req =>
+      if st.apiToken then
+        let ps := apiStep false st.ps req
+        ({ st with ps := ps }, s!"status={apiStatus false st.ps.mem req}")
+      else (st, "bad-op")
+    | none => (st, "bad-op")
   | "bl" :: "cserve" :: _ => (st, "unmodelled")
   | ["bl", "state"] =>
     (st, s!"{memStr st.ps.mem} w={listHex st.ps.mem.w} len={st.ps.mem.length} ver={st.ps.version} lp={st.ps.lastPersisted}")
